@@ -79,7 +79,7 @@ func pfBuild(r *vh.Report, which string) (rounds [][]*pfCase, bases []progfam.Ba
 				c := &pfCase{base: b, v: v, key: fmt.Sprintf("%s/%s@%d", b.ID, v.Op, v.Site), fnOld: pfFuncName(b.ID)}
 				c.fnNew = c.fnOld
 				if v.Name != b.Name {
-					c.fnNew = c.fnOld + "Renamed"
+					c.fnNew = "G" + c.fnOld[1:] // not an extension of the old name (substring matches must not help)
 				}
 				round = append(round, c)
 			}
@@ -186,8 +186,8 @@ func pfFingerprints(path, src string, pol ir.LiteralPolicy) (map[string]pfFP, er
 		if f, ok := out["F_method"]; ok {
 			out["F_method"] = pfFP{f.fp + "+" + c.fp, f.irText + "\n; ---- rec.calc ----\n" + c.irText}
 		}
-		if f, ok := out["F_methodRenamed"]; ok {
-			out["F_methodRenamed"] = pfFP{f.fp + "+" + c.fp, f.irText + "\n; ---- rec.calc ----\n" + c.irText}
+		if f, ok := out["G_method"]; ok {
+			out["G_method"] = pfFP{f.fp + "+" + c.fp, f.irText + "\n; ---- rec.calc ----\n" + c.irText}
 		}
 	}
 	return out, nil
